@@ -469,7 +469,7 @@ def tlc_faults(ctx, only=None):
 
 
 # ------------------------------------------------------------------------------------------------ running jobs
-def run_jobs(ctx, command, jobs, args=None, parallel=12, timeout=3000, max_timeouts=4):
+def run_jobs(ctx, command, jobs, args=None, parallel=12, timeout=3000, max_timeouts=4, cwd=None):
     """Feed jobs (dicts) to a worker sub-command over P parallel processes; returns the list of output records.
 
     A worker that hits its per-run watchdog reports the job (a record with "timeout"), exits with code 3 and is restarted
@@ -489,7 +489,7 @@ def run_jobs(ctx, command, jobs, args=None, parallel=12, timeout=3000, max_timeo
             fin = os.path.join(d, "in-%d-%d.ndjson" % (k, gen))
             fout = os.path.join(d, "out-%d-%d.ndjson" % (k, gen))
             open(fin, "w").write("".join(json.dumps(j) + "\n" for j in part))
-            pr = subprocess.Popen([ctx.worker, command] + (args or []), stdin=open(fin), stdout=open(fout, "w"), stderr=subprocess.PIPE, env=env)
+            pr = subprocess.Popen([ctx.worker, command] + (args or []), stdin=open(fin), stdout=open(fout, "w"), stderr=subprocess.PIPE, env=env, cwd=cwd)
             procs.append((pr, fout, k, part, gen))
         pending = []
         for pr, fout, k, part, gen in procs:
